@@ -1,5 +1,6 @@
 import ProductMD.Model.Py
 import ProductMD.Generated.Checksums
+import ProductMD.Model.HashMD
 /-!
 # Checksums (property C16)
 
@@ -7,7 +8,8 @@ Mirrors `productmd/treeinfo.py`: `compute_checksum` (chunked read into a streami
 (absolute-path refusal, `os.path.normpath`, digest computed when no value is given), `Checksums.serialize` /
 `deserialize` (`type:value`; bare legacy digests typed by length) and `productmd/images.py` `Image.add_checksum`.
 
-The hash function is abstract (`init`, `upd`, `dig`); the `[checksums]` section is an association list
+The hash function is a parameter (`init`, `upd`, `dig`): either abstract, or a block-buffered hash of
+`Model/HashMD.lean` (`computeMD`; md5/sha1/sha2 by name: `computeByName`); the `[checksums]` section is an association list
 `path ↦ raw value` in the order `parser.items()` yields it (the INI layer is modelled elsewhere).  Constants and the
 shape of the legacy chain come from `Generated/Checksums.lean`.
 -/
@@ -47,6 +49,42 @@ def readTrace (loops : Bool) (n size : Nat) : List Nat :=
   let content : Bytes := List.replicate size 0
   if loops then (readLoop (fun (h : Nat) c => h + c.length) n (size + 1) 0 content).2
   else (readOnce (fun (h : Nat) c => h + c.length) n 0 content).2
+
+/-! ### compute_checksum over a MODELLED hash object (`Model/HashMD.lean`) -/
+
+/-- `checksum.hexdigest().lower()` -/
+def hexdigestLower {S : Type} (A : HashMD.Alg S) (h : HashMD.State S) : Str := Str.lowerAscii (HashMD.digest A h)
+
+/-- the read-until-empty loop with chunk size `n` feeding a block-buffered hash -/
+def chunkedMD {S : Type} (A : HashMD.Alg S) (n : Nat) (content : Bytes) : Str :=
+  chunkedDigest (HashMD.init A) (HashMD.update A) (hexdigestLower A) n content
+
+/-- `compute_checksum(path, type)` as the code has it, `hashlib.new(type)` being the block-buffered hash `A` -/
+def computeMD {S : Type} (A : HashMD.Alg S) (content : Bytes) : Str :=
+  compute (HashMD.init A) (HashMD.update A) (hexdigestLower A) content
+
+/-- run `k` over the modelled algorithm `hashlib.new(name)` denotes (`none`: name not modelled) -/
+def withAlg {α : Type} (name : Str) (k : {S : Type} → HashMD.Alg S → α) : Option α :=
+  let n := Str.lowerAscii name
+  if n = ['m', 'd', '5'] then some (k HashMD.md5)
+  else if n = ['s', 'h', 'a', '1'] then some (k HashMD.sha1)
+  else if n = ['s', 'h', 'a', '2', '2', '4'] then some (k HashMD.sha224)
+  else if n = ['s', 'h', 'a', '2', '5', '6'] then some (k HashMD.sha256)
+  else if n = ['s', 'h', 'a', '3', '8', '4'] then some (k HashMD.sha384)
+  else if n = ['s', 'h', 'a', '5', '1', '2'] then some (k HashMD.sha512)
+  else none
+
+def chunkedByName (name : Str) (n : Nat) (content : Bytes) : Option Str := withAlg name (fun A => chunkedMD A n content)
+def computeByName (name : Str) (content : Bytes) : Option Str := withAlg name (fun A => computeMD A content)
+
+/-- what a caller does who feeds chunks of the given sizes (a size of 0 feeds `b""`; what is left after the last
+size is fed as one final chunk) -/
+def cutChunks : List Nat → Bytes → List Bytes
+  | [], rest => [rest]
+  | k :: ks, rest => rest.take k :: cutChunks ks (rest.drop k)
+
+def fedInChunks {S : Type} (A : HashMD.Alg S) (sizes : List Nat) (content : Bytes) : Str :=
+  hexdigestLower A ((cutChunks sizes content).foldl (HashMD.update A) (HashMD.init A))
 
 /-! ### os.path.normpath / os.path.join (POSIX) -/
 
@@ -118,6 +156,15 @@ def add (digestOf : Str → Str → Except Err Str) (tbl : Table) (rel ctype : S
         match digestOf (pathJoin r key) ctype with
         | .ok d => (tbl.set key (ctype, d), .ok ())
         | .error e => (tbl, .error e)
+
+/-- `compute_checksum(path, type)` on the file system `files`, the algorithm found by NAME; a name that is not
+modelled raises (hashlib: `ValueError: unsupported hash type`) -/
+def digestByName (files : Str → Option Bytes) : Str → Str → Except Err Str := fun p t =>
+  match files p with
+  | some c => (match computeByName t c with
+    | some d => .ok d
+    | none => .error .valueError)
+  | none => .error .other
 
 /-! ### serialize / deserialize -/
 
